@@ -54,19 +54,24 @@ def showROut (h : List (Ref × UInt64)) : Out Ref → String
   | .err e => showErr e
   | .panic => "panic"
 
-def showAlias (s : RState) (ret : Ref) : String :=
+/-- `arg`: the object the compute function was handed (0: none / nil); `pre`: the state before the operation.  `fa`/`fg`/`fc`:
+the function was handed the caller's object `a` / `g` / the object the cache held — by `C06_compute_ownership` never the
+case: the argument is the object this call's own decode allocated. -/
+def showAlias (pre s : RState) (ret arg : Ref) : String :=
   let fl := (if ret ≠ 0 ∧ ret = s.a then ["ra"] else []) ++
     (match s.st.cv with
      | some c => (if c ≠ 0 ∧ c = s.a then ["ca"] else []) ++ (if c ≠ 0 ∧ c = s.g then ["cg"] else [])
-     | none => [])
+     | none => []) ++
+    (if arg ≠ 0 ∧ arg = pre.a then ["fa"] else []) ++ (if arg ≠ 0 ∧ arg = pre.g then ["fg"] else []) ++
+    (if arg ≠ 0 ∧ pre.st.cv = some arg then ["fc"] else [])
   if fl.isEmpty then "-" else ",".intercalate fl
 
 def showRCache (s : RState) : String :=
   (match s.st.cv with | none => "nil" | some c => showContent s.heap c) ++ "/" ++
   (match s.st.ch with | none => "nil" | some b => showBool b)
 
-def showRLine (s : RState) (out : String) (tr : List Ev) (ret : Ref) : String :=
-  s!"{out} calls={showTrace tr} raw={showRaw s.st.store} cache={showRCache s} alias={showAlias s ret}"
+def showRLine (pre s : RState) (out : String) (tr : List Ev) (ret arg : Ref) : String :=
+  s!"{out} calls={showTrace tr} raw={showRaw s.st.store} cache={showRCache s} alias={showAlias pre s ret arg}"
 
 /-- One operation through the generic `step` with the codec of the moment. `hpost` is the heap after
 the compute function ran (it may have allocated / mutated objects), used for encoding. -/
@@ -79,7 +84,15 @@ def rApply (s : RState) (hpost : List (Ref × UInt64)) (op : Op Ref) (F : Faults
     | _ => 0
   let s' : RState := { s with st := r.st, heap := hpost, next := s.next + 2,
                               a := setsA.getD s.a, g := if ret ≠ 0 then ret else s.g }
-  (s', showRLine s' (showROut hpost r.out) r.tr ret)
+  -- what the compute function is handed (if it is called at all)
+  let arg : Ref := match op with
+    | .compute _ => (match s.st.cv, s.st.ch with
+      | some _, none => 0
+      | _, _ => match computeRead (refCodec hpost f) s.st F with
+        | .go cur _ _ => cur
+        | .exit _ _ => 0)
+    | _ => 0
+  (s', showRLine s s' (showROut hpost r.out) r.tr ret arg)
 
 def rstepLine (s : RState) (toks : List String) : RState × String :=
   let f := s.next
@@ -100,7 +113,7 @@ def rstepLine (s : RState) (toks : List String) : RState × String :=
     match u64? n with
     | some v =>
       if r = 0 then (s, "noobj")
-      else let s' := { s with heap := (r, v) :: s.heap }; (s', showRLine s' "ok" [] 0)
+      else let s' := { s with heap := (r, v) :: s.heap }; (s', showRLine s s' "ok" [] 0 0)
     | none => (s, "bad-op")
   | ["get", ft] => match parseFaults ft with
     | some F => rApply s hdec .get F none
@@ -129,6 +142,21 @@ def rstepLine (s : RState) (toks : List String) : RState × String :=
         | some d => (f, d + 1) :: s.heap
         | none => s.heap
       rApply s ((n1, v) :: hinc) (.compute fun cur ex => if ex then .ok cur else .ok n1) F none
+    | _, _ => (s, "bad-op")
+  | ["compute", "mutnc", n, ft] => match u64? n, parseFaults ft with
+    | some v, some F =>
+      -- `if exists { cur.X = n }; return nil, ErrTypedValueNotChanged`: the function scribbles over what it was handed, then aborts
+      let hmut : List (Ref × UInt64) := match s.st.store.bind codec64.dec with
+        | some _ => (f, v) :: s.heap
+        | none => s.heap
+      rApply s hmut (.compute fun _ _ => .notChanged) F none
+    | _, _ => (s, "bad-op")
+  | ["compute", "mutfail", n, ft] => match u64? n, parseFaults ft with
+    | some v, some F =>
+      let hmut : List (Ref × UInt64) := match s.st.store.bind codec64.dec with
+        | some _ => (f, v) :: s.heap
+        | none => s.heap
+      rApply s hmut (.compute fun _ _ => .fail) F none
     | _, _ => (s, "bad-op")
   | ["compute", "nc", ft] => match parseFaults ft with
     | some F => rApply s hdec (.compute fun _ _ => .notChanged) F none
